@@ -469,7 +469,7 @@ func TestC19(t *testing.T) {
 	hx.Check[c19Case]{
 		Property: "C19", Part: "keys",
 		Rule:  "fresh RSA-2048/3072, ECDSA P-224/256/384/521, Ed25519 keys x two PEM forms of the same pair (PKCS#8, PKCS#1, SEC1, PKIX, certificate) x decoration (leading text, CRLF, trailing block/text, blank lines) x loader (file/reader, defaults/explicit scheme and hash list), optionally loading into a re-used Key value; identity, type, scheme, halves, cross sign/verify in both wrappers, distinctness from another pair; 1 in 5 cases is a negative (truncated, bad base64, encrypted, CSR, X25519, empty, nil reader, missing file, wrong scheme, bad hash algorithm, flipped byte); non-trivial = two different forms compared, or a negative; distinct by (kind, forms, decorations, loaders, scheme, algs)",
-		Cases: hx.Pick(1500, 40000),
+		Cases: hx.Pick(1500, 200000),
 		Gen:   c19Gen, Run: c19Run,
 	}.Execute(t)
 	_ = ed25519.PublicKeySize
